@@ -233,6 +233,11 @@ let gen_check out =
     (String.concat "," (List.map (fun (t, f) -> string_of_coq t ^ "." ^ string_of_coq f) unread));
   let bs = bad_separators Models.sql_prog in
   Printf.fprintf out "separators_ok %b [%s]\n" (bs = []) (names bs);
+  let esc = escaping Models.skeleton in
+  let bad_entries = List.filter (fun f -> smem f esc) Models.entry_points in
+  Printf.fprintf out "escape_ok %b postfix=%b escaping_entries=[%s] functions=%d may_escape=%d entries=%d\n"
+    (is_postfix Models.skeleton esc && bad_entries = []) (is_postfix Models.skeleton esc) (names bad_entries)
+    (List.length Models.skeleton) (List.length esc) (List.length Models.entry_points);
   let pc = List.map coq_of_string ["Parser"; "Lexer"; "File"] in
   Printf.fprintf out "globals_ok %b vars=%d writes=[%s] go=%d imports=%d receiver_fields=%d\n"
     (globals_ok Models.global_writes Models.go_statements Models.concurrency_imports Models.receiver_field_writes pc)
